@@ -78,6 +78,9 @@ def run(repo, rep, tier):
     # a node's settings (its default marker, its escape set) reach the
     # engine that compiles its expression
     L.engine_fields_rule(repo, rep, "R04.1")
+    from . import c20 as _c20
+    L.borrow(repo, rep, "R04.1", "C20", _c20._lone_value,
+             ("python-line-ends",))
     # a statement written in the data-* spelling is the same expression
     # (C18 owns the conversion: it runs before the values are decoded)
     from . import c18 as _c18
